@@ -234,6 +234,30 @@ pub fn c01(ctx: &mut Ctx) {
         }
     }
 
+    // ---- M1(f): shallow rules that build deep or large VALUES ---------------------------------
+    // a fold can wrap its accumulator once per element: the value gets as deep as the array is
+    // long although rule and data are flat (recursive clone / print / drop of such a value is
+    // where a stack overflow would come from)
+    idx += 1;
+    if ctx.mine(idx) {
+        for n in [100usize, 126, 127, 128, 129, 1000, 5000, 20_000, 100_000] {
+            let arr = Value::Array(vec![json!(0); n]);
+            for rule in [
+                json!({"reduce": [{"var": ""}, {"var": ""}, 0]}),
+                json!({"reduce": [{"var": ""}, {"merge": [[[{"var": "accumulator"}]]]}, []]}),
+                json!({"reduce": [{"var": ""}, {"if": [true, {"var": ""}]}, null]}),
+                json!({"cat": [{"reduce": [{"var": ""}, {"var": ""}, 0]}]}),
+                json!({"==": [{"reduce": [{"var": ""}, {"var": ""}, 0]}, 1]}),
+                json!({"log": {"reduce": [{"var": ""}, {"var": ""}, 0]}}),
+                json!({"map": [[1, 2], {"reduce": [[0, 0, 0], {"var": ""}, {"var": ""}]}]}),
+                json!({"reduce": [{"var": ""}, {"reduce": [[1], {"var": ""}, {"var": "accumulator"}]}, 0]}),
+                json!({"in": [{"reduce": [{"var": ""}, {"var": ""}, 0]}, [{"reduce": [{"var": ""}, {"var": ""}, 0]}]]}),
+            ] {
+                total(ctx, "c01.apply", &format!("deep-value:{}", if n <= 127 { "within-limit" } else { "beyond-limit" }), &rule, &arr);
+            }
+        }
+    }
+
     // ---- M1(b): random trees -------------------------------------------------------------
     let n = ctx.budget(20_000, 3_000_000);
     let mut g = RuleGen::new();
